@@ -1277,6 +1277,15 @@ impl<'a> CompilerState<'a> {
                                         start,
                                     ));
                                 }
+                                // The tables of the string literals are named cctmp0, cctmp1...
+                                if let Some(n) = name.strip_prefix("cctmp") {
+                                    if !n.is_empty() && n.chars().all(|c| c.is_ascii_digit()) {
+                                        return Err(self.syntax_error(
+                                            &format!("{} is a reserved name", &name),
+                                            start,
+                                        ));
+                                    }
+                                }
                             }
                             Rule::array_spec => {
                                 start = p.as_span().start();
